@@ -235,6 +235,10 @@ var registry = map[string]runner{}
 func register(id string, f runner) { registry[id] = f }
 
 func main() {
+	if len(os.Args) > 1 && os.Args[1] == "-record" {
+		recordMain(os.Args[1:])
+		return
+	}
 	if len(os.Args) > 2 && os.Args[1] == "-stage" {
 		stageMain(os.Args[2:])
 		return
